@@ -342,8 +342,17 @@ class FileManager:
         try:
             manifest_data = json.loads(content.decode("utf-8"))
 
+            # A legacy JSON manifest IS its "files" section. A document without
+            # that key (or with something other than a list there) is not a
+            # manifest without files - it is not a manifest: reading it as empty
+            # made the garbage collector delete every data file it had listed.
+            if not isinstance(manifest_data["files"], list):
+                raise ValueError(
+                    f"manifest section 'files' is not a list "
+                    f"({type(manifest_data['files']).__name__})"
+                )
             data_files = []
-            for file_entry in manifest_data.get("files", []):
+            for file_entry in manifest_data["files"]:
                 data_file = DataFile(
                     file_path=file_entry["file_path"],
                     file_format=FileFormat(file_entry["file_format"]),
@@ -456,8 +465,18 @@ class FileManager:
         try:
             list_data = json.loads(content.decode("utf-8"))
 
+            # A legacy JSON manifest list IS its "manifests" section. A document
+            # without that key (or with something other than a list there) is
+            # not an empty snapshot - it is not a manifest list: reading it as
+            # empty made the garbage collector delete the snapshot's manifests
+            # and data files.
+            if not isinstance(list_data["manifests"], list):
+                raise ValueError(
+                    f"manifest list section 'manifests' is not a list "
+                    f"({type(list_data['manifests']).__name__})"
+                )
             manifest_files = []
-            for manifest_entry in list_data.get("manifests", []):
+            for manifest_entry in list_data["manifests"]:
                 manifest_file = ManifestFile(
                     manifest_path=manifest_entry["manifest_path"],
                     manifest_length=manifest_entry["manifest_length"],
